@@ -595,43 +595,68 @@ def fam_contract(rng, tier, i):
     return {"family": "contract", "lines": s, "tags": {"p%d" % p}}
 
 def fam_corrupt(rng, tier, i):
-    """single-slot damages that produce the lone-marker pattern, with each callback mode (C18)"""
-    p = rng.choice([0, 1, 2, 3, 4, 6])
+    """single-line damages that produce the lone-marker pattern (second marker line of a section, or the delta
+    of a data line), at enumerated positions, with each callback mode; whole and bounded reads (C18).
+    Sizes reach past the 16 KiB read buffer so that the damage also falls on a buffer boundary."""
+    p = rng.choice([0, 0, 1, 2, 3, 4, 6, 9])
     L = p + 2
-    n = rng.choice([4, 6, 9])
+    big = rng.random() < (0.12 if tier == "quick" else 0.25)
+    n = rng.choice([5, 7, 10, 14])
     for _ in range(100):
-        lines = mk_lines(rng, p, n, shape=rng.choice(["mixed", "sparse", "edge"]), no_marker=True)
+        lines = mk_lines(rng, p, n, shape=rng.choice(["mixed", "sparse", "edge", "mixed"]), no_marker=True)
         lay = layout(p, lines)
-        nsec = sum(1 for it in lay if it[0] == "S")
-        if nsec >= 2:
+        secpos = [j for j, it in enumerate(lay) if it[0] == "S"]
+        if len(secpos) >= 3:
             break
-    # slot index of every item
+    s = [new_line("d", p)]
+    seq = []
+    if big:
+        # a long first section: the damage and the sections after it lie around the first buffer boundary
+        chunk = ((16384 + L - 1) // L) * L
+        want = chunk // L + rng.randrange(-6, 3) - K(p)
+        base = lines[0][0]
+        if base < want + 10:
+            return fam_corrupt(rng, tier, i)
+        s.append("pushseq %d 1 %d %d" % (base - want - 5, want, rng.randrange(256)))
+        seq = [(base - want - 5 + k, b"") for k in range(want)]
+    s += push_lines(lines) + ["close"]
+    lay = layout(p, seq + lines)
+    first = len(seq) + (1 if seq else 0)      # items of the generated part (the long section has one header)
+    secpos = [j for j, it in enumerate(lay) if it[0] == "S"]
     idx = []
     k = 0
     for it in lay:
         idx.append(k); k += K(p) if it[0] == "S" else 1
     total = k
-    kind = rng.choice([1, 2, 2])
-    cb = rng.choice(["none", "deny", "allow", "allow"])
-    s = [new_line("d", p)] + push_lines(lines) + ["close"]
+    last_sec = secpos[-1]
+    kind = rng.choice([1, 1, 2])
+    cb = rng.choice(["none", "deny", "allow", "allow", "allow"])
     if kind == 1:
-        # second marker slot of a section (not the first section) -> non-marker bytes
-        secs = [j for j, it in enumerate(lay) if it[0] == "S" and j > 0]
-        j = rng.choice(secs)
+        # second marker line of a section that is neither the first nor the last -> a non-marker line
+        cands = [j for j in secpos if j != last_sec and j > 0]
+        if not cands:
+            return fam_corrupt(rng, tier, i)
+        j = rng.choice(cands)
         slot = idx[j] + 1
-        s.append("fs_patch data:d %d %s" % ((total - slot) * L, "0100"))
+        word = rng.choice(["0100", "0000", "feff", "fffe", "%02x%02x" % (rng.randrange(255), rng.randrange(256))])
+        s.append("fs_patch data:d %d %s" % ((total - slot) * L, word))
     else:
-        # a data line's delta -> FF FF; the line must not directly precede or follow a marker slot
-        cand = [j for j, it in enumerate(lay) if it[0] == "L" and j + 1 < len(lay) and lay[j + 1][0] == "L" and lay[j - 1][0] == "L"]
-        if not cand:
-            cand = [j for j, it in enumerate(lay) if it[0] == "L" and j + 1 < len(lay) and lay[j + 1][0] == "L"]
+        # a data line's delta -> FF FF; the line is followed by a data line, and a complete section follows later
+        cand = [j for j, it in enumerate(lay) if it[0] == "L" and j + 1 < len(lay) and lay[j + 1][0] == "L" and j < last_sec and j > max(1, first)]
         if not cand:
             return fam_corrupt(rng, tier, i)
         j = rng.choice(cand)
         slot = idx[j]
         s.append("fs_patch data:d %d ffff" % ((total - slot) * L))
-    s += [open_line("d", "any", "any", (), cb), "read_all u u", "read_first_n 2 u u", "n_lines u u", "len", "last_line", "close"]
-    return {"family": "corrupt", "lines": s, "tags": {"p%d" % p, "cb_" + cb, "kind%d" % kind}}
+    tss = [t for t, _ in lines]
+    s.append(open_line("d", "any", "any", (), cb))
+    reads = ["read_all u u", "read_first_n %d u u" % rng.choice([1, 2, 3, 1000]), "read_first_n 1000000 u u"]
+    for lo, hi in bounds_critical(rng, tss, 3):
+        reads.append("read_all %s %s" % (lo, hi))
+    reads.append("read_first_n %d i%d u" % (rng.choice([1, 2, 50]), rng.choice(tss)))
+    rng.shuffle(reads)
+    s += ["read_all u u"] + reads + ["n_lines u u", "len", "last_line", "read_n 3 u u", "read_all u u", "close"]
+    return {"family": "corrupt", "lines": s, "tags": {"p%d" % p, "cb_" + cb, "kind%d" % kind} | ({"big"} if big else set())}
 
 def fam_totality(rng, tier, i):
     """extreme values for every argument of every public call (C19)"""
